@@ -172,6 +172,9 @@ class Program:
         self.genobjs = {}           # site -> (call node, bound arguments) of generator objects created but not yet run
         self.closures = {}          # site -> nested function definition + defining scope
         self.field_classes = {}     # (root class, field) -> class of the object the constructor leaves there
+        self.nonnull = {}           # (root class, field) -> the attribute is never None once the object is constructed
+        self.back_refs = {}         # (root class, owner.part) -> ("outer", prefix) when the part always denotes the owner
+        self.next_of = {}           # iter(S) term -> element, while a loop walks S through an iterator object
         self.funcrefs = {}          # key -> (class, definition, decorator level): what a decorator receives
         self.wrappers = {}          # key -> closure a user decorator returned for a definition
 
@@ -457,6 +460,8 @@ def cmp_term(op, a, b):
 
 _NEVER_NONE = ("tuple", "new", "comp", "flat", "op", "draw", "cmp", "fstr", "str", "partial", "closure", "lambda",
                "getter", "methodcaller")
+_VALUE_FUNCTIONS = {"exp", "log", "floor", "ceil", "sqrt", "abs", "len", "int", "float", "sum", "max", "min", "str", "bool",
+                    "round", "range", "enumerate", "zip", "tuple", "sorted", "reversed", "mean", "pow", "iter", "repeat", "count"}
 _METHOD_NAMES = {"append", "extend", "insert", "pop", "popleft", "appendleft", "remove", "clear", "update", "add",
                  "discard", "get", "keys", "values", "items", "copy", "setdefault", "sort", "index", "count"}
 
@@ -469,6 +474,8 @@ def _is_none(a):
     if a[0] == "const":
         return ("const", a[1] is None)
     if a[0] in _NEVER_NONE:
+        return ("const", False)
+    if a[0] == "fn" and a[1] in _VALUE_FUNCTIONS:
         return ("const", False)
     if a[0] == "attr" and a[2] in _METHOD_NAMES:
         return ("const", False)         # a bound container method
@@ -1065,6 +1072,16 @@ class _Bind(ast.stmt):
         ast.copy_location(self, like)
 
 
+class _Term(ast.expr):
+    """Synthetic expression: a value that has already been evaluated."""
+    _fields = ()
+
+    def __init__(self, term, like):
+        super().__init__()
+        self.term = term
+        ast.copy_location(self, like)
+
+
 class Summariser:
     """Summarises one function (with same-class helpers inlined) into terms + an effect tree."""
 
@@ -1114,8 +1131,104 @@ class Summariser:
     def fname(self, attr):
         return self.field_prefix + attr
 
+    def _back_reference(self, name):
+        """`owner.part` always denotes the owning object itself when the constructor stores it there and nothing
+        else in the collaborator's class or the owner's classes assigns that attribute."""
+        if "." not in name or name.startswith("%") or self.cls is None:
+            return None
+        key = (self._root_key(), name)
+        cache = self.prog.back_refs
+        if key not in cache:
+            cache[key] = None
+            rk = key[0]
+            root = self.prog.cls(rk) if isinstance(rk, str) and not rk.startswith("<") else None
+            if root is None:
+                return None
+            c, init = self.prog.find_method(root, "__init__")
+            if init is None or init in self.fnstack:
+                del cache[key]
+                return None
+            try:
+                v = self.prog.summarise(root, "__init__").fields.get(name)
+            except Unsupported:
+                v = None
+            if v is not None and v[0] == "outer" and v[1] == "":
+                owner_fld, attr = name.rsplit(".", 1)
+                K = self.prog.owned.get((rk, owner_fld))
+                stores = 0
+                for k in ([K] if K is not None else []) + list(self.prog.mro(root)):
+                    for n in ast.walk(k.node):
+                        if isinstance(n, ast.Attribute) and n.attr == attr and isinstance(n.ctx, (ast.Store, ast.Del)):
+                            stores += 1
+                        if isinstance(n, ast.Call) and isinstance(n.func, ast.Name) and n.func.id in ("setattr", "delattr"):
+                            stores += 2
+                if K is not None and stores == 1:
+                    cache[key] = v
+        return cache.get(key)
+
+    def _never_none_field(self, name):
+        """Class invariant `self.<name> is not None`: the constructor leaves a value that is never None and every
+        method that assigns the attribute leaves one too (given that it found one).  Decided only when all stores
+        are in the object's own class (for `owner.part`: in the collaborator's class)."""
+        if self.cls is None or name.startswith("%"):
+            return False
+        rk = self._root_key()
+        key = (rk, name)
+        cache = self.prog.nonnull
+        if key in cache:
+            return cache[key]
+        root = self.prog.cls(rk) if isinstance(rk, str) and not rk.startswith("<") else None
+        if root is None:
+            return False
+        _, init = self.prog.find_method(root, "__init__")
+        if init is None or init in self.fnstack:
+            return False
+        cache[key] = False
+        try:
+            v = self.prog.summarise(root, "__init__").fields.get(name)
+        except Unsupported:
+            return False
+        if v is None or _is_none(v) != ("const", False):
+            return False
+        if "." in name:
+            owner_fld, attr = name.rsplit(".", 1)
+            K = self.prog.owned.get((rk, owner_fld))
+            if K is None or "." in owner_fld:
+                return False
+            inside, outside = self.prog.mro(K), self.prog.mro(root)
+        else:
+            attr, K, inside, outside = name, root, self.prog.mro(root), []
+
+        def stores(node):
+            return any(isinstance(n, ast.Attribute) and n.attr == attr and isinstance(n.ctx, (ast.Store, ast.Del))
+                       for n in ast.walk(node)) or \
+                any(isinstance(n, ast.Call) and isinstance(n.func, ast.Name) and n.func.id in ("setattr", "delattr", "vars")
+                    for n in ast.walk(node)) or \
+                any(isinstance(n, ast.Attribute) and n.attr == "__dict__" for n in ast.walk(node))
+        if any(stores(k.node) for k in outside):
+            return False
+        f0 = ("field0", attr)
+        known = {("cmp", "is", f0, ("const", None)): ("const", False), ("cmp", "is not", f0, ("const", None)): ("const", True),
+                 f0: ("op", "+", f0, ("const", 0))}
+        for k in inside:
+            for mname, m in k.methods.items():
+                if mname == "__init__" or not stores(m):
+                    continue
+                try:
+                    fv = self.prog.summarise(K, mname).fields.get(attr)
+                except Unsupported:
+                    return False
+                if fv is not None and _is_none(subst(fv, known)) != ("const", False):
+                    return False
+        cache[key] = True
+        return True
+
     def field(self, name):
         if name not in self.fields:
+            back = self._back_reference(name)
+            if back is not None:
+                self.fields[name] = back
+                return back
             names = self._record_names(name)
             if names:
                 # a field that holds an immutable record is the display of its components
@@ -1546,8 +1659,14 @@ class Summariser:
                 self.env[st.iter.id][1] in self.prog.genobjs and not st.orelse and \
                 self._generator_loop(st, events, self.prog.genobjs[self.env[st.iter.id][1]]):
             return
+        if not is_while and not st.orelse and not isinstance(st.iter, _Term):
+            walk = self._iterator_object_loop(st, events)
+            if walk:
+                return
         if not is_while:
-            it = self.expr(st.iter, events)
+            it = self.iterated(self.expr(st.iter, events), events, st.iter)
+            if getattr(st, "_next_of", None) is not None:
+                self.prog.next_of[st._next_of] = elem_val
             if self._unrollable(st, it):
                 return self.unroll(st, it, events)
             if it[0] == "fn" and it[1] == "zip" and len(it[2]) == 2 and it[2][1] in self.prog.list_models:
@@ -1678,6 +1797,58 @@ class Summariser:
             self.fields[f] = ("eta", lid, "self." + f)
         if st.orelse:
             raise Unsupported(f"for-else at {self.module.path}:{st.lineno}")
+
+    def _iterator_object_loop(self, st, events):
+        """`for T in obj` with obj a collaborator object of a private iterator class (`__iter__` returns self) whose
+        `__next__` advances exactly one underlying iterator `self.F = iter(S)` and stops only when that one stops:
+        the loop walks S, and each step binds T to what `__next__` returns for that element."""
+        if not isinstance(st.iter, ast.Name) or self.env.get(st.iter.id, ("?",))[0] != "owned":
+            return False
+        o = self.env[st.iter.id]
+        K = self._private_class(o[3])
+        if K is None:
+            return False
+        _, nxt = self.prog.find_method(K, "__next__")
+        _, itr = self.prog.find_method(K, "__iter__")
+        if nxt is None or itr is None:
+            return False
+        body = [x for x in itr.body if not (isinstance(x, ast.Expr) and isinstance(x.value, ast.Constant))]
+        if not (len(body) == 1 and isinstance(body[0], ast.Return) and isinstance(body[0].value, ast.Name) and
+                itr.args.args and body[0].value.id == itr.args.args[0].arg):
+            return False
+        me = nxt.args.args[0].arg
+        calls = [n for c in self.prog.mro(K) for n in ast.walk(c.node)
+                 if isinstance(n, ast.Call) and isinstance(n.func, ast.Name) and n.func.id == "next"]
+        stops = [n for c in self.prog.mro(K) for n in ast.walk(c.node) if isinstance(n, ast.Name) and n.id == "StopIteration"]
+        own = [n for n in ast.walk(nxt) if n in calls]
+        if len(calls) != 1 or len(own) != 1 or stops or len(own[0].args) != 1:
+            return False
+        a = own[0].args[0]
+        if not (isinstance(a, ast.Attribute) and isinstance(a.value, ast.Name) and a.value.id == me):
+            return False
+        fld = o[1] + a.attr
+        cur = self.fields.get(fld)
+        if cur is None or not (cur[0] == "fn" and cur[1] == "iter" and len(cur[2]) == 1):
+            return False
+        if any(isinstance(n, (ast.Break, ast.Return)) for b in st.body for n in ast.walk(b)):
+            return False                # an early exit would leave the underlying iterator half consumed
+        step = ast.Assign(targets=[st.target], value=ast.Call(
+            func=ast.Attribute(value=ast.Name(id=st.iter.id, ctx=ast.Load()), attr="__next__", ctx=ast.Load()),
+            args=[], keywords=[]), type_comment=None)
+        loop = ast.For(target=ast.Name(id=f"_it_e{st.lineno}", ctx=ast.Store()), iter=_Term(cur[2][0], st.iter),
+                       body=[step] + list(st.body), orelse=[], type_comment=None)
+        ast.copy_location(step, st)
+        ast.copy_location(loop, st)
+        ast.fix_missing_locations(step)
+        for n in ast.walk(step):
+            if not hasattr(n, "end_lineno") or n.end_lineno is None:
+                n.end_lineno = st.lineno
+        loop._next_of = cur
+        try:
+            self.loop(loop, events)
+        finally:
+            self.prog.next_of.pop(cur, None)
+        return True
 
     # -- lists filled by a loop, one element per iteration ------------------------------------------------
     def _note_list_mutation(self, recv, meth, args):
@@ -1917,6 +2088,8 @@ class Summariser:
     def _expr(self, e, events):
         if e is None:
             return ("const", None)
+        if isinstance(e, _Term):
+            return e.term
         if isinstance(e, ast.Constant):
             return ("const", e.value)
         if isinstance(e, ast.Name):
@@ -1982,7 +2155,14 @@ class Summariser:
                 if r[0] == "const" and isinstance(r[1][1], ast.Constant):
                     return ("const", r[1][1].value)
                 return ("global", d)
-            return attr_of(self._expr(e.value, events), e.attr)
+            v = self._expr(e.value, events)
+            if v[0] == "outer":
+                rk = self._root_key()
+                root = self.prog.cls(rk) if isinstance(rk, str) and not rk.startswith("<") else None
+                if v[1] or root is None or self.prog.find_method(root, e.attr)[1] is not None:
+                    raise Unsupported(f"attribute of the owning object at {self.module.path}:{e.lineno} {ast.unparse(e)[:60]}")
+                return self.field(e.attr)
+            return attr_of(v, e.attr)
         if isinstance(e, ast.BinOp):
             if isinstance(e.op, ast.Mod) and isinstance(e.left, ast.Constant) and isinstance(e.left.value, str):
                 right = self._expr(e.right, events)
@@ -2010,7 +2190,11 @@ class Summariser:
             parts = []
             for op, right in zip(e.ops, e.comparators):
                 r = self._expr(right, events)
-                parts.append(cmp_term(CMPOPS[type(op)], left, r))
+                if isinstance(op, (ast.Is, ast.IsNot)) and r == ("const", None) and left[0] == "field0" and \
+                        self.fields.get(left[1], left) == left and self._never_none_field(left[1]):
+                    parts.append(("const", isinstance(op, ast.IsNot)))      # class invariant: never None once constructed
+                else:
+                    parts.append(cmp_term(CMPOPS[type(op)], left, r))
                 left = r
             return parts[0] if len(parts) == 1 else ("and", tuple(parts))
         if isinstance(e, ast.IfExp):
@@ -2130,11 +2314,41 @@ class Summariser:
             return norm_comp(("comp", kind, lid, gen.loop_iters[lid], None, v, ()))
         raise Unsupported(f"comprehension over generator with several yields at {self.module.path}:{e.lineno}")
 
+    def _dunder(self, t, name, events, node):
+        """obj.__name__() for a collaborator object of a private class (field or local) that defines it, else None."""
+        if t[0] == "field0" and self.cls is not None and not self._is_property(t[1]):
+            K, fld = self._owned_class(t[1]), t[1]
+        elif t[0] == "owned":
+            K, fld = self._private_class(t[3]), t[1][:-1]
+        elif t[0] == "new" and self.cls is not None and not self.field_prefix and self._private_class(t) is not None:
+            fld = next((f for f, v in self.fields.items() if v == t and (self._root_key(), f) in self.prog.owned), None)
+            if fld is None:
+                return None
+            K = self.prog.owned[(self._root_key(), fld)]
+        else:
+            return None
+        if K is None:
+            return None
+        c, m = self.prog.find_method(K, name)
+        if m is None:
+            return None
+        return self._inline_owned(K, fld, c, m, (), {}, events, node)
+
+    def iterated(self, it, events, node):
+        """What a `for` / comprehension walks when it is handed `it`: a collaborator object is asked for its
+        __iter__; iter(x) walks x."""
+        got = self._dunder(it, "__iter__", events, node)
+        if got is not None and got != it:
+            it = got
+        while it[0] == "fn" and it[1] == "iter" and len(it[2]) == 1:
+            it = it[2][0]
+        return it
+
     def _comp_clause(self, e, gi, events):
         g = e.generators[gi]
         if g.is_async:
             raise Unsupported("async comprehension")
-        it = self._expr(g.iter, events)
+        it = self.iterated(self._expr(g.iter, events), events, g.iter)
         lid = self.ids.next()
         self.bind_target(g.target, ("elem", lid))
         self.loops = self.loops + (lid,)
@@ -2298,6 +2512,13 @@ class Summariser:
                     c, m = self.prog.find_method(self.cls, "__len__")
                     if m is not None:
                         return self.inline(c, m, (), {}, events, e)
+                if f.id in ("len", "iter", "bool", "next") and len(args) == 1 and not kwargs:
+                    got = self._dunder(args[0], {"len": "__len__", "iter": "__iter__", "bool": "__bool__",
+                                                 "next": "__next__"}[f.id], events, e)
+                    if got is not None:
+                        return got
+                if f.id == "next" and len(args) == 1 and not kwargs and args[0] in self.prog.next_of:
+                    return self.prog.next_of[args[0]]      # the element the enclosing walk is at
                 return ("fn", f.id, args + tuple(("kw",) + kv for kv in kwargs))
             elif r is None and f.id in EXC_NAMES:
                 return ("new", self.site(e), "exc:" + f.id, args)
@@ -2813,6 +3034,10 @@ class Summariser:
         saved = (self.cls, self.field_prefix, getattr(self, "_owner_key", None))
         if not self.field_prefix:
             self._owner_key = self._root_key()
+        # the owner handing itself to its collaborator: inside, that value denotes the owner, not the collaborator
+        back = ("outer", self.field_prefix)
+        args = tuple(back if a == ("self",) else a for a in args)
+        kwargs = {k: (back if v == ("self",) else v) for k, v in kwargs.items()}
         self.cls, self.field_prefix = K, fld + "."
         try:
             return self.inline(c, m, args, kwargs, events, node)
